@@ -76,6 +76,8 @@ def bufDrain : Nat := 8
 def bufRequeue : Nat := 9
 def handleProduce : Nat := 10
 def getPartitionLog : Nat := 11
+def buildSegment : Nat := 12      -- pkg/storage/segment.go, plain function
+def indexBuildBytes : Nat := 13   -- pkg/storage/index.go, IndexBuilder.BuildBytes
 end Fn
 
 /-- first index at which two tables differ (with the two rows found there) -/
